@@ -187,6 +187,7 @@ type simSpeakerConf struct {
 	Families []bgp.Family                       // convenience: MP caps for these (used when Caps == nil)
 	AddPath  map[bgp.Family]bgp.BGPAddPathMode  // as announced by the speaker (used when Caps == nil)
 	NoAS4    bool
+	NoRouteRefresh bool
 	Port     uint16
 }
 
@@ -241,6 +242,9 @@ func (sp *simSpeaker) caps() []bgp.ParameterCapabilityInterface {
 	}
 	if !sp.conf.NoAS4 {
 		caps = append(caps, bgp.NewCapFourOctetASNumber(sp.conf.AS))
+	}
+	if !sp.conf.NoRouteRefresh {
+		caps = append(caps, bgp.NewCapRouteRefresh())
 	}
 	if len(sp.conf.AddPath) > 0 {
 		var tuples []*bgp.CapAddPathTuple
